@@ -5,6 +5,7 @@ cd /verif
 miss=0
 for d in seeded/*/; do
   n=$(basename $d)
+  if [ -f $d/SUPERSEDED ]; then echo "SUPERSEDED $n"; continue; fi
   props=$(python3 -c "import json;print(' '.join(sorted(json.load(open('$d/meta.json'))['checks'])))")
   out=$(tools/seedrecheck.sh $n $props 2>&1 | grep "check C")
   echo "$out"
